@@ -271,6 +271,8 @@ def beh_mask(r):
     for bit in (7, 8, 9, 10, 11):
         if r.chance(1, 2):
             m |= 1 << bit
+    if r.chance(1, 3):
+        m |= 1 << 12          # not a behaviour: a channel whose write() returns bool
     return m
 
 
